@@ -163,6 +163,76 @@ long syscall(long number, ...) {
     return real_syscall(number, a, b, c, d, e, f);
 }
 
+/* ------------------------------------------------------------------ unscheduled ("wild") threads
+ * The simulator owns the threads the router spawns through iwes::verif::spawn. A changed router may start
+ * threads elsewhere (std::thread::spawn in a handler, a background indexer). Those cannot be scheduled, but
+ * they can be seen and perturbed: a thread created by a server thread without the simulator having announced
+ * it is counted, starts after a seeded delay, and the simulator waits for it before it calls the system idle.
+ */
+static __thread int t_server = 0;
+static volatile int expect_spawn = 0;
+static volatile long wild_live = 0, wild_total = 0;
+static uint64_t wild_seed = 1;
+static long wild_max_delay_us = 0;
+
+void simlibc_mark_server_thread(int on) { t_server = on; }
+void simlibc_expect_spawn(void) { expect_spawn = 1; }
+void simlibc_wild_config(uint64_t seed, long max_delay_us) {
+    wild_seed = seed;
+    wild_max_delay_us = max_delay_us;
+    wild_total = 0;
+}
+long simlibc_wild_live(void) { return wild_live; }
+long simlibc_wild_total(void) { return wild_total; }
+
+struct thread_wrap {
+    void *(*start)(void *);
+    void *arg;
+    long delay_us;
+    int wild;
+};
+
+static void *thread_trampoline(void *p) {
+    struct thread_wrap w = *(struct thread_wrap *)p;
+    free(p);
+    t_server = 1;
+    if (w.wild && w.delay_us > 0) usleep((useconds_t)w.delay_us);
+    void *r = w.start(w.arg);
+    if (w.wild) __sync_fetch_and_sub(&wild_live, 1);
+    return r;
+}
+
+static int (*real_pthread_create)(pthread_t *, const pthread_attr_t *, void *(*)(void *), void *) = NULL;
+
+int pthread_create(pthread_t *thread, const pthread_attr_t *attr, void *(*start)(void *), void *arg) {
+    if (!real_pthread_create) real_pthread_create = dlsym(RTLD_NEXT, "pthread_create");
+    if (!t_server) return real_pthread_create(thread, attr, start, arg);
+    struct thread_wrap *w = malloc(sizeof *w);
+    if (!w) return real_pthread_create(thread, attr, start, arg);
+    w->start = start;
+    w->arg = arg;
+    w->delay_us = 0;
+    w->wild = 1;
+    if (expect_spawn) {
+        expect_spawn = 0;
+        w->wild = 0;
+    } else {
+        __sync_fetch_and_add(&wild_live, 1);
+        __sync_fetch_and_add(&wild_total, 1);
+        if (wild_max_delay_us > 0) {
+            pthread_mutex_lock(&mu);
+            w->delay_us = (long)(splitmix(&wild_seed) % (uint64_t)(wild_max_delay_us + 1));
+            pthread_mutex_unlock(&mu);
+        }
+    }
+    int r = real_pthread_create(thread, attr, thread_trampoline, w);
+    if (r != 0) {
+        if (w->wild) __sync_fetch_and_sub(&wild_live, 1);
+        free(w);
+    }
+    return r;
+}
+
 /* ------------------------------------------------------------------ configuration of the file seam */
 static int cfg_loaded = 0;
 static char root[PATH_MAX] = "";
